@@ -65,8 +65,11 @@ func RegisterCache[K comparable, V any](m *Manager, name string, config Config, 
 }
 
 func (m *Manager) register(name string, reg cacheRegistration) error {
+	verifYield(421)
 	m.configMu.Lock()
 	defer m.configMu.Unlock()
+	defer verifYield(424)
+	verifYield(422)
 
 	if _, exists := m.registrations[name]; exists {
 		return newCacheError("register", name, ErrCacheExists)
@@ -85,8 +88,10 @@ func GetCache[K comparable, V any](m *Manager, name string) (*Cache[K, V], error
 		return assertCache[K, V](name, cached)
 	}
 
+	verifYield(411)
 	m.configMu.RLock()
 	reg, exists := m.registrations[name]
+	verifYield(413)
 	m.configMu.RUnlock()
 
 	if !exists {
@@ -115,8 +120,10 @@ func GetCacheWithConfig[K comparable, V any](
 	// a typed registration pins the name's type parameters: creating an instance
 	// of another type here would make every later GetCache for the registered
 	// type fail against it.
+	verifYield(411)
 	m.configMu.RLock()
 	reg, exists := m.registrations[name]
+	verifYield(413)
 	m.configMu.RUnlock()
 	if exists && reg.cacheType != nil && reg.cacheType != cacheTypeOf[K, V]() {
 		return nil, newCacheError("get", name, ErrTypeMismatch)
@@ -130,6 +137,7 @@ func createCache[K comparable, V any](
 	reg cacheRegistration,
 	opts ...Option[K, V],
 ) (*Cache[K, V], error) {
+	verifYield(414)
 	var created any
 	var err error
 	if reg.factory != nil {
@@ -144,12 +152,15 @@ func createCache[K comparable, V any](
 	cache, ok := created.(*Cache[K, V])
 	if !ok {
 		if closer, ok := created.(io.Closer); ok {
+			verifYield(417)
 			_ = closer.Close()
 		}
 		return nil, newCacheError("get", name, ErrTypeMismatch)
 	}
 
+	verifYield(415)
 	if actual, loaded := m.caches.LoadOrStore(name, cache); loaded {
+		verifYield(416)
 		_ = cache.Close()
 		return assertCache[K, V](name, actual)
 	}
@@ -188,6 +199,7 @@ func (m *Manager) CloseAll() error {
 	var errs []error
 
 	m.caches.Range(func(key, value any) bool {
+		verifYieldNote(440, key.(string))
 		if cache, ok := value.(io.Closer); ok {
 			if err := cache.Close(); err != nil {
 				errs = append(errs, newCacheError("close", key.(string), err))
@@ -207,11 +219,14 @@ func (m *Manager) CloseAll() error {
 // configuration.
 func (m *Manager) Remove(name string) error {
 	m.configMu.Lock()
+	verifYield(431)
 	delete(m.registrations, name)
 	m.configMu.Unlock()
 
+	verifYield(433)
 	if cached, ok := m.caches.LoadAndDelete(name); ok {
 		if cache, ok := cached.(io.Closer); ok {
+			verifYield(434)
 			return cache.Close()
 		}
 	}
